@@ -35,8 +35,8 @@ func init() {
 			c.CLIRunPassThrough(ob2)
 			ob3 := c.R.Ob("C20.3b", "mapping", "the store handed to the library is built field-for-field from the decoded balances and metadata", 2)
 			c.Mapping(ob3, map[string]bool{relCmd: true})
-			ob4 := c.R.Ob("C20.4", "numtext/N2-machine", "the CLI does not narrow or rebuild amounts through 64-bit machine integers", 0)
-			c.BoundedArithmeticOnNumerals(ob4, map[string]bool{relCmd: true})
+			ob4 := c.R.Ob("C20.4", "numtext/N2-machine", "neither the CLI nor the value renderers it prints through narrow or rebuild amounts through 64-bit machine integers", 0)
+			c.BoundedArithmeticOnNumerals(ob4, map[string]bool{relCmd: true, relInterp: true, "": true})
 			obNumRender(c, "C20.5")
 			obTypeTables(c, "C20.5b")
 		},
